@@ -42,6 +42,12 @@ package wallet
 //@   ensures[leaves-the-plaintext-alone] bytesval(inText) == old(bytesval(inText)) && bytesval(key) == old(bytesval(key))
 //@   modifies nothing
 
+// Opening never panics on a tampered file: a nonce of another length than the cipher's is refused before it reaches Open (which
+// panics on it - before the fix a key file whose nonce lost a byte took down whoever unlocked it).
+//@ func aesGCMDecrypt(key, cipherText, nonce) -> (out, err)
+//@   inline
+//@   at-call Open assert[a-nonce-of-another-length-never-reaches-open] len(arg2) == 12
+
 // Encrypt and decrypt agree on key, nonce and additional data: what aesGCMEncrypt produced, aesGCMDecrypt opens to the input.
 //@ lemma aes_gcm_roundtrip
 //@   attr uses aead-roundtrip
